@@ -3,3 +3,4 @@ pub mod dump;
 pub mod header;
 pub mod events;
 pub mod time;
+pub mod framer;
